@@ -671,10 +671,10 @@ fn mode_c14(cx: &mut Ctx, only_unit: Option<usize>, only_case: Option<(Vec<Fact>
                 // the same deadline again (repeated interruption at the same relative point; long runs: on the grid below)
                 if !long_run { history(&[t, t], cx); }
             }
-            if cx.thorough || facts.len() <= 2 {
+            if (cx.thorough && facts.len() <= 3) || facts.len() <= 2 {
                 // all pairs of deadlines; runs with many clock readings: all pairs on the grid of every g-th reading
-                let g = if cx.thorough { (m / 64).max(1) } else if m <= 24 { 1 } else { m / 8 };
-                if g > 1 { cx.rep.extra("double_interruptions", format!("all pairs (t1, t2) of deadlines; runs with more than {} clock readings: all pairs on a grid of every k-th reading, k = readings/{}", if cx.thorough { 64 } else { 24 }, if cx.thorough { 64 } else { 8 })); }
+                let g = if cx.thorough { (m / 32).max(1) } else if m <= 24 { 1 } else { m / 8 };
+                if g > 1 { cx.rep.extra("double_interruptions", format!("all pairs (t1, t2) of deadlines; runs with more than {} clock readings: all pairs on a grid of every k-th reading, k = readings/{}", if cx.thorough { 32 } else { 24 }, if cx.thorough { 32 } else { 8 })); }
                 for t1 in (0..=m + 1).step_by(g as usize) { for t2 in (0..=m + 1).step_by(g as usize) { if t1 != t2 || long_run { history(&[t1, t2], cx); } } }
             }
             cx.rep.add_extra("clock_readings_max", 0);
